@@ -323,6 +323,16 @@ func (p *Planner) newInvertableTypeJoin(
 		}
 	}
 
+	if skipChild {
+		// an aggregate over the related documents reads all of them, even though they are not rendered
+		for _, field := range parent.selectReq.Fields {
+			if aggregate, ok := field.(*mapper.Aggregate); ok && aggregateReadsField(aggregate, subSelect.Index) {
+				skipChild = false
+				break
+			}
+		}
+	}
+
 	subCol, err := p.db.GetCollectionByName(p.ctx, subSelect.CollectionName)
 	if err != nil {
 		return invertibleTypeJoin{}, err
@@ -382,6 +392,22 @@ func (p *Planner) newInvertableTypeJoin(
 	}
 
 	return join, nil
+}
+
+// aggregateReadsField returns true if the aggregate, or one of the aggregates it depends on, targets
+// the field with the given index of its host.
+func aggregateReadsField(aggregate *mapper.Aggregate, fieldIndex int) bool {
+	for _, target := range aggregate.AggregateTargets {
+		if target.Index == fieldIndex {
+			return true
+		}
+	}
+	for _, dependency := range aggregate.Dependencies {
+		if aggregateReadsField(dependency, fieldIndex) {
+			return true
+		}
+	}
+	return false
 }
 
 type joinSide struct {
